@@ -55,9 +55,9 @@ ProbeOK(mm, pr, lo) ==
   /\ lo \/ {<<k, mm.vars[k]>> : k \in DOMAIN mm.vars}
              = {<<Key(x.l, x.id, x.sfx, x.sub), x.v>> : x \in Range(pr.vars)}
   /\ lo \/ {<<a, mm.dims[a]>> : a \in DOMAIN mm.dims} = {<<ArrId(x.id, x.sfx), x.b>> : x \in Range(pr.dims)}
-  /\ \A c \in Letters : mm.deft[c] = pr.deft[LetterIdx[c]]
-  /\ DOMAIN mm.fns = {x.id : x \in Range(pr.fns)}
-  /\ mm.tron = pr.tron
+  /\ lo \/ \A c \in Letters : mm.deft[c] = pr.deft[LetterIdx[c]]
+  /\ lo \/ DOMAIN mm.fns = {x.id : x \in Range(pr.fns)}
+  /\ lo \/ mm.tron = pr.tron
   /\ mm.mode = "ready" => mm.col = 0 /\ pr.col = 0
   /\ (~HadError(mm.resp) /\ ~lo) =>
        /\ mm.dptr = pr.dptr
@@ -97,7 +97,12 @@ IntrPin(mm, pr) ==
       nx == Step(mm)
       obs == [k \in {Key(x.l, x.id, x.sfx, x.sub) : x \in Range(pr.vars)} |->
                 (CHOOSE x \in Range(pr.vars) : Key(x.l, x.id, x.sfx, x.sub) = k).v]
-  IN  /\ (pr.line >= 0 /\ p.ln # PastEnd) => p.ln = pr.line
+  IN  \* (the interpreter may still be in the trailing opcodes of the statement just finished,
+      \* e.g. the jump over an ELSE part: then the unresolved position is on that line)
+      \* (while a user function is being evaluated the interpreter is in the DEF's line)
+      /\ (pr.line >= 0 /\ p.ln # PastEnd) =>
+            \/ p.ln = pr.line \/ mm.pc.ln = pr.line
+            \/ (pr.line \in DOMAIN mm.lst /\ \E i \in 1..Len(mm.lst[pr.line]) : mm.lst[pr.line][i].k = "def")
       /\ \A k \in DOMAIN obs \cup DOMAIN mm.vars \cup DOMAIN nx.vars :
             (IF k \in DOMAIN obs THEN <<obs[k]>> ELSE <<>>) \in {ValAt(mm, k), ValAt(nx, k)}
 
